@@ -2,6 +2,7 @@
 # usage: tryseed.sh <property> <patch.diff>   -- applies the patch to /repo, runs the quick check, reverts
 P=$1; PATCH=$2
 cd /repo || exit 2
+if [ -n "$(git status --porcelain)" ]; then echo "refusing: /repo has uncommitted changes (they would be lost by the cleanup)"; exit 2; fi
 git apply --check "$PATCH" || { echo "patch does not apply"; exit 2; }
 git apply "$PATCH"
 GOVC_NO_EVIDENCE=1 /verif/bin/govc check --property $P > /tmp/tryseed_$P.log 2>&1; rc=$?
